@@ -62,6 +62,13 @@ def build_api(position, words):
             req = dict(name=M, fields=[dict(name='inner', type=f'In{i}'), dict(name='plain')])
         elif position == 'flattened_param':
             req = dict(name=M, fields=[dict(name=w), dict(name='plain')]); sigs = [f'{w},plain']
+        elif position == 'flattened_dotted':
+            msgs.append(inner)
+            req = dict(name=M, fields=[dict(name='inner', type=f'In{i}'), dict(name='plain')]); sigs = [f'plain,inner.{w},inner.other']
+        elif position == 'http_path_sibling':
+            # a variable that merely STARTS with the word stands before the variable named by the word
+            req = dict(name=M, fields=[dict(name=f'{w}_id'), dict(name=w), dict(name='plain')])
+            http = [dict(verb='post', uri='/v1/m%d/{%s_id=*}/things/{%s=items/*}' % (i, w, w), body='*')]
         elif position == 'http_path_top':
             req = dict(name=M, fields=[dict(name=w), dict(name='plain')]); http = [dict(verb='post', uri='/v1/m%d/{%s=items/*}' % (i, w), body='*')]
         elif position == 'http_path_dotted':
